@@ -18,7 +18,7 @@ KNOWN_CLASS = "C03-zoutside"
 def _model_checks(ctx):
     q = ctx.quick
     w = 4 if q else 8
-    for cfg in (["MC_Symmetries"] if q else ["MC_Symmetries_thorough", "MC_Symmetries_thorough2", "MC_Symmetries_thorough3"]):
+    for cfg in (["MC_Symmetries"] if q else ["MC_Symmetries", "MC_Symmetries_thorough", "MC_Symmetries_thorough2", "MC_Symmetries_thorough3"]):
         r = lib.tlc("MC_Symmetries", cfg=cfg, workers=w, timeout=2400, heap="6g")
         ctx.mc_must_pass(r, "symmetry algebra S1-S3, switch guards, every operation class used (%s)" % cfg, "MC_Symmetries")
     lib.log("  [%4.0fs] MC_Symmetries done" % (time.time() - ctx.t0))
